@@ -76,7 +76,9 @@ def dense_assembly(ctx, graph, mode, bias):
         # modular step: cov / block inverse replaced by their (functional,
         # symmetric) contracts; their bodies are verified on 'edge2'
         stubs.OPAQUE['cov'] = True
-        GM._covariance_matrix_inverse = lambda cm, nc: stubs.opaque_symmetric('Inv', list(np.asarray(cm).flat), cm.shape[0])
+        # (callee contract: accepts the 0-d covariance numpy returns for a
+        # single feature as well as a k x k block, returns a k x k block)
+        GM._covariance_matrix_inverse = lambda cm, nc: stubs.opaque_symmetric('Inv', list(np.asarray(cm).flat), np.atleast_2d(cm).shape[0])
     try:
         m = GMRFVectorModel(np.array(Xa, copy=True), G, mode=mode, sparse=False, dtype=object if ctx.sym else np.float64, bias=bias)
     finally:
@@ -101,23 +103,22 @@ def dense_assembly(ctx, graph, mode, bias):
 
 
 @contract('C12', 'storage_and_psd_native', level='bounded', native_samples=2, tol=1e-5,
-          configs=[dict(graph=g, mode=m, bias=b, dtype=dt, ncomp=nc) for g in ('edgeless4', 'chain4', 'cycle4', 'tree5', 'isolated6', 'directed4')
-                   for m in ('concatenation', 'subtraction') for b in (0, 1) for dt in ('float64', 'float32') for nc in (None, 2)
-                   if not (nc == 2 and dt == 'float32')],
+          configs=[dict(graph=g, mode=m, bias=b, dtype=dt, ncomp=nc, fpv=fpv) for g in ('edgeless4', 'chain4', 'cycle4', 'tree5', 'isolated6', 'directed4')
+                   for m in ('concatenation', 'subtraction') for b in (0, 1) for dt in ('float64', 'float32') for nc in (None, 2) for fpv in (1, 2, 3)
+                   if not (nc == 2 and (dt == 'float32' or fpv != 2)) and not (fpv == 3 and (dt == 'float32' or b == 1))],
           functions=['menpo.model.gmrf:_create_sparse_precision', 'menpo.model.gmrf:_create_sparse_diagonal_precision',
                      'menpo.model.gmrf:GMRFVectorModel.mahalanobis_distance'])
-def storage_and_psd_native(ctx, graph, mode, bias, dtype, ncomp):
+def storage_and_psd_native(ctx, graph, mode, bias, dtype, ncomp, fpv=2):
     """bounded stand-in: sparse == dense storage, == independent edge-sum
     reference, symmetric, PSD (eigenvalues >= -eps), graph-sparse, Mahalanobis
     non-negative / zero at mean / sparse == dense / single == batched, mean."""
     from menpo.model import GMRFVectorModel
     rs = ctx.nprng
     G = _graphs()[graph]
-    fpv = 2
     n = 25
     nf = G.n_vertices * fpv
-    X = (rs.randn(n, nf) + rs.randn(nf)).astype(dtype)
-    X[:, ::2] += 0.4 * X[:, 1::2]
+    X = rs.randn(n, nf) + rs.randn(nf)
+    X = (X + 0.4 * np.roll(X, 1, axis=1)).astype(dtype)
     tol = 1e-5 if dtype == 'float64' else 2e-2
     kw = dict(mode=mode, dtype=np.dtype(dtype).type, bias=bias, n_components=ncomp)
     md = GMRFVectorModel(X.copy(), G, sparse=False, **kw)
@@ -138,7 +139,7 @@ def storage_and_psd_native(ctx, graph, mode, bias, dtype, ncomp):
     if G.n_edges == 0:
         for v in range(G.n_vertices):
             sl = slice(v * fpv, (v + 1) * fpv)
-            ref[sl, sl] = pinv_rank(np.cov(Xd[:, sl], rowvar=0, bias=bias))
+            ref[sl, sl] = pinv_rank(np.atleast_2d(np.cov(Xd[:, sl], rowvar=0, bias=bias)))
     else:
         for a, b in E:
             sa, sb = slice(a * fpv, (a + 1) * fpv), slice(b * fpv, (b + 1) * fpv)
@@ -146,7 +147,7 @@ def storage_and_psd_native(ctx, graph, mode, bias, dtype, ncomp):
                 P = pinv_rank(np.cov(np.hstack([Xd[:, sa], Xd[:, sb]]), rowvar=0, bias=bias))
                 ref[sa, sa] += P[:fpv, :fpv]; ref[sb, sb] += P[fpv:, fpv:]; ref[sa, sb] += P[:fpv, fpv:]; ref[sb, sa] += P[fpv:, :fpv]
             else:
-                P = pinv_rank(np.cov(Xd[:, sa] - Xd[:, sb], rowvar=0, bias=bias))
+                P = pinv_rank(np.atleast_2d(np.cov(Xd[:, sa] - Xd[:, sb], rowvar=0, bias=bias)))
                 ref[sa, sa] += P; ref[sb, sb] += P; ref[sa, sb] -= P; ref[sb, sa] -= P
     if dtype == 'float64':
         ctx.check_eq('==edge-sum-reference', Pd, ref, tol=1e-5)
